@@ -517,6 +517,14 @@ func (e *Exec) primitive(st *State, fr *Frame, fn *ssa.Function, args []Value, p
 		e.ghSet(st, fam+".len", BV(64), wref, BVConst(0, 64))
 		e.ghSet(st, fam+".limit", BV(64), wref, BVConst(1<<62, 64))
 		return one(st), true
+	case "prim_feed": // prim_feed(r, b): the unread input of r is exactly the bytes of b, then the terminal error
+		rref := streamRef(args[0])
+		b := args[1].(*SliceV)
+		d := st.arrayOf(b.Elem, comp{"", BV(8)}, b.Arr)
+		e.ghSet(st, "rd.data", byteArr, rref, ArrayCopy(zeroTerm(byteArr), BVConst(0, 64), d, b.Off, b.Len))
+		e.ghSet(st, "rd.pos", BV(64), rref, BVConst(0, 64))
+		e.ghSet(st, "rd.len", BV(64), rref, b.Len)
+		return one(st), true
 	case "prim_pipe": // prim_pipe(r, w, from): what was written to w from position `from` on is exactly the unread input of r
 		rref, wref := streamRef(args[0]), streamRef(args[1])
 		from := SignExt(args[2].(*Term), 64)
